@@ -537,8 +537,8 @@ class _LegacyTransport(_httpx.AsyncBaseTransport):
         w.stream_tail = t0 + 0.01 * len(chunks)
         if wk["legacy_mode"] == "200":
             await asyncio.sleep(max(0.0, t0 - loop.time()) + 0.01 * (len(chunks) + 2))
-            return _httpx.Response(200, headers={"content-type": "application/json"}, content=wk["legacy_post_body"],
-                                   request=request)
+            return _httpx.Response(wk.get("legacy_status") or 200, headers={"content-type": "application/json"},
+                                   content=wk["legacy_post_body"], request=request)
         delay = max(0.0, t0 - loop.time()) + 0.01 * (len(chunks) + 1) * wk["ack"]
         if delay > 0:
             await asyncio.sleep(delay + 0.005)
@@ -658,7 +658,7 @@ def wire_of(conv, index, res):
                      "stdio_chunks": cut(stdio, e["cuts"]),
                      "http_json": body, "http_sse": sse, "http_mixed": "json" if (k % 2 == 0) else "sse",
                      "legacy_chunks": cut(legacy, e["cuts"]) if legacy else [],
-                     "legacy_mode": e["legacy_mode"], "legacy_post_body": texts[-1].encode("utf-8"), "ack": e["ack"],
+                     "legacy_mode": e["legacy_mode"], "legacy_status": e.get("legacy_status"), "legacy_post_body": texts[-1].encode("utf-8"), "ack": e["ack"],
                      "http_pace": e.get("http_pace")})
     return wire
 
@@ -919,6 +919,19 @@ def explore(ctx, drv):
         st["enc"] = gen_enc(rng, 4)
         st["enc"]["http_pace"] = 0.4                 # ~7 writes: about 3 s, the caller waits up to TIMEOUT (5 s)
         items.append(({"steps": [st], "http_timeout": 1.5}, "answer-longer-than-the-transport-timeout"))
+    # the legacy server turns a request down AT ITS POST ENDPOINT: the JSON-RPC error response is the body of a 4xx/5xx answer
+    # (same message, same id; the other carriers deliver it their usual way), for every id shape a caller may choose
+    for rid in ["a", "007", 7, 0, -3, 2 ** 31]:
+        for status, err in ((404, {"code": -32002, "message": "Resource not found"}), (400, {"code": -32602, "message": "Invalid params", "data": {"p": 1}}),
+                            (500, {"code": -32603, "message": "Internal error"})):
+            st = gen_step(rng, "raw")
+            st["call"]["id"] = rid
+            st["notifs"] = []
+            st["answer"] = {"error": err}
+            st["enc"] = gen_enc(rng, 1)
+            st["enc"]["legacy_mode"] = "200"
+            st["enc"]["legacy_status"] = status
+            items.append(({"steps": [st]}, "turned-down-at-the-post-endpoint"))
     # payloads that MENTION endpoint-like paths ("/mcp", "/messages/"), with the legacy server naming its events or not
     for untyped in (False, True):
         for mode in ("200", "202"):
